@@ -79,9 +79,12 @@ fn get_node_cover_range_impl(
     // heading or list item cannot be replaced in isolation: its edge blanks and the indentation
     // of its continuation lines belong to the enclosing node, which is selected instead.
     let is_document = node.is::<Markup>() && node.parent().is_none();
+    // Blank space is not worth formatting on its own (and must not be indented).
+    let is_blank = matches!(node.kind(), SyntaxKind::Space | SyntaxKind::Parbreak);
     (node_range.start <= range.start
         && node_range.end >= range.end
-        && (is_document || !node.is::<Markup>() && (node.is::<Expr>() || node.is::<Pattern>())))
+        && (is_document
+            || !node.is::<Markup>() && !is_blank && (node.is::<Expr>() || node.is::<Pattern>())))
     .then(|| (node.span(), mode))
     // It returns span to avoid problems with borrowing.
 }
